@@ -2,6 +2,7 @@ package operator
 
 import (
 	"fmt"
+	"reduction.dev/reduction/util/verifhook"
 
 	"reduction.dev/reduction/proto/workerpb"
 	"reduction.dev/reduction/util/sliceu"
@@ -45,7 +46,9 @@ func (c *checkpoint) alignSender(senderID string) (wait func()) {
 
 	if _, ok := c.srIDs[senderID]; !ok {
 		return func() {
+			verifhook.Point("operator.align.parked", senderID)
 			<-c.allBarriersReceived
+			verifhook.Point("operator.align.released", senderID)
 		}
 	}
 	return func() {}
